@@ -1,6 +1,6 @@
 #!/bin/bash
 # install a seed whose demonstration is run.sh + demo_crate
-id=$1; n=$2; src=/tmp/wt/$id/_out/$n; dst=/verif/seeded/$id-$n
+id=$1; n=$2; src=${WTBASE:-/tmp/wt}/$id/_out/$n; dst=/verif/seeded/$id-${SEEDNO:-$n}
 mkdir -p $dst
 cp $src/patch.diff $dst/patch.diff
 cp $src/run.sh $dst/run.sh
@@ -11,7 +11,7 @@ import json,sys
 src,dst,pid,n=sys.argv[1:]
 try: m=json.load(open(src+'/meta.json'))
 except Exception as e: m={"note":"agent meta.json unreadable: %s"%e}
-out={"seed":f"{pid}-{n}","breaks_property":pid,"summary":m.get("summary"),"needs_to_manifest":m.get("needs_to_manifest"),"agent_commands":m.get("commands_run"),
+out={"seed":dst.split("/")[-1],"breaks_property":pid,"summary":m.get("summary"),"needs_to_manifest":m.get("needs_to_manifest"),"agent_commands":m.get("commands_run"),
      "confirmed_by_me":{"how":"tools/confirm_seed_runsh.sh %s %s in the scratch worktree /tmp/wt/%s at /repo HEAD: patch applies, cargo test --workspace passes except the baseline-failing ui_tests, run.sh exits 1 with the change and 0 without it"%(pid,n,pid)},
      "detected_by":{}}
 json.dump(out,open(dst+'/meta.json','w'),indent=1)
